@@ -13,7 +13,7 @@ from harness.common import Ctx
 SPARK_OK = ["lev_sur", "dist_fn", "exact_city_tf", "exact_dob", "lev_dob", "amount", "km", "city_custom"]
 # comparisons only DuckDB and Spark accept (arrays, date parsing, regex); DateOfBirthComparison (damerau_levenshtein) and
 # EmailComparison (jaro_winkler) need the Scala UDF jar that the installed Spark 4 lacks: recorded, not run
-FORCED = [["arr_intersect", "date_diff", "lev_sur"], ["postcode", "exact_city_tf", "amount"], ["date_diff", "arr_intersect", "km"], None]
+FORCED = [["arr_intersect", "date_diff", "lev_sur"], ["postcode", "exact_city_tf", "amount"], None]
 NEEDS_UDF_JAR = ["dob_cmp", "email"]
 
 
@@ -46,6 +46,7 @@ def run(ctx: Ctx):
             case["spec"]["comparisons"] = [c for c in case["spec"]["comparisons"] if c in SPARK_OK] or ["lev_sur", "exact_city_tf"]
             if len(case["spec"]["comparisons"]) < 2:
                 case["spec"]["comparisons"].append("amount" if "amount" not in case["spec"]["comparisons"] else "lev_sur")
+        case["tables"] = [t[:14] for t in case["tables"]]      # local[2] with a 6g heap: keep the clustering loop small
         for c in case["spec"]["comparisons"]:
             ctx.hist("spark_comparison_in_pipeline", c)
         try:
@@ -60,6 +61,13 @@ def run(ctx: Ctx):
         try:
             oth = c06_x.run_backend(case, "spark", api=api)
         except Exception as e:
+            if "OutOfMemoryError" in str(e) or isinstance(e, ConnectionRefusedError) or "Connection refused" in str(e):
+                # sandbox resource limit of the local JVM, not a linkage difference
+                ctx.hist("spark_resource_error_skipped", "OutOfMemoryError" if "OutOfMemory" in str(e) else "jvm_gone")
+                ctx.notes.append(f"spark pipeline {case['idx']} skipped: JVM resource error")
+                if "OutOfMemory" not in str(e):
+                    break
+                continue
             ctx.violation(f"pipeline succeeds on duckdb but raises on spark: {type(e).__name__}: {str(e)[:200]}",
                           {"case": case, "implementation": f"spark: {e!r}"[:400], "specification": "duckdb: success"},
                           {"dialect": "spark", "asymmetric_failure": True, "comparisons": sorted(case["spec"]["comparisons"])})
